@@ -31,7 +31,9 @@ SizesOf(sets) == [i \in DOMAIN sets |-> Cardinality(sets[i])]
 (* ---- property-level predicates on an observed (comps, sizes) -------------- *)
 (* "two nodes get the same label exactly when a path joins them"                *)
 SameLabelIffReachable(n, A, comps) ==
-  \A u, v \in 1..n : (comps[u] = comps[v]) <=> (v \in ComponentOf(n, A, u))
+  LET S == SymSupport(n, A)
+      comp == Force([u \in 1..n |-> GrowReach(n, S, {u})])      \* one closure per node
+  IN \A u, v \in 1..n : (comps[u] = comps[v]) <=> (v \in comp[u])
 (* "uses labels 1..m"                                                           *)
 Labels1toM(n, comps, m) == {comps[v] : v \in 1..n} = 1..m
 (* "reports for each label the number of nodes carrying it"                     *)
